@@ -1,7 +1,7 @@
 SPECIFICATION Spec
 CONSTANTS
   Workers = {1, 2, 3}
-  Configs <- T4
+  Configs <- ThreeWarmN3
   MirrorGoc = FALSE
   MirrorSetup = FALSE
   MirrorDone = FALSE
